@@ -21,6 +21,10 @@ Qed.
 Theorem window_forwarding : window_forwarding_ok = true.
 Proof. reflexivity. Qed.
 
+Theorem group_unique_axis : forall axis two_d many_rows many_cols, axis = 0 \/ axis = 1 ->
+  tb_group_unique_axis axis two_d many_rows many_cols = model_unique_axis axis two_d.
+Proof. intros axis [] [] [] [-> | ->]; reflexivity. Qed.
+
 Theorem code_shape :
   code_shape_ok = true /\
   forall c i m o, gen_sort_path c i m o = path_is_sort (choose_path c i m o).
